@@ -198,8 +198,10 @@ def check_model(chk: harness.Check, name: str, text: str, targets: List[str]) ->
 
 
 def worker(args) -> Dict[str, Any]:
-    argv, shard, n_shards, n_models = args
+    argv, shard, n_shards, n_models = args[:-1]
+    mins = args[-1]
     chk = harness.Check("C02", "exploration", RULE, argv)
+    chk.set_worker_minimums(mins, n_shards)
     budget = chk.wall_budget(170, 900)
     models: List[Tuple[str, str]] = []
     fixtures = [m for m in corpus.models() if "unexpected" not in m[0]]
@@ -224,7 +226,7 @@ def worker(args) -> Dict[str, Any]:
             mutated, names = textmut.mutate(m.text, rng, 1, donors)
             models.append((f"mmg/{chk.seed}/{i}+{'+'.join(names)}", mutated))
     for idx, (name, text) in enumerate(models):
-        if chk.elapsed() > budget:
+        if chk.should_stop(budget):
             chk.count("models_skipped_for_budget", len(models) - idx)
             break
         check_model(chk, name, text, TARGETS)
@@ -235,13 +237,17 @@ def main(argv) -> int:
     chk = harness.Check("C02", "exploration", RULE, argv)
     n_models = chk.pick(72, 2000)
     n_shards = 12
+    mins = {
+        "models_accepted": chk.pick(60, 200),
+        "runs": chk.pick(500, 1800),
+    }
     with concurrent.futures.ProcessPoolExecutor(max_workers=n_shards) as pool:
-        jobs = [pool.submit(worker, (list(argv), s, n_shards, n_models)) for s in range(n_shards)]
+        jobs = [pool.submit(worker, (list(argv), s, n_shards, n_models, mins)) for s in range(n_shards)]
         for job in jobs:
             try:
                 chk.merge(job.result())
             except Exception as err:
                 chk.harness_error(f"worker failed: {err!r}")
-    chk.require_min("models_accepted", chk.pick(60, 200))
-    chk.require_min("runs", chk.pick(500, 1800))
+    for counter_name, minimum in mins.items():
+        chk.require_min(counter_name, minimum)
     return chk.finish()
